@@ -144,7 +144,7 @@ def caller_props(asm):
     # declared field types of the unit's structs (`pub em: ExpirationMap<ES>`): resolves `self.em.try_insert(` to its owner
     ftypes = {}
     for ln in asm.lines:
-        for m in re.finditer(r"\bpub\s+(\w+)\s*:\s*(?:(?:Arc|Box|Option|Ghost|Tracked)\s*<\s*)*(\w+)", ln):
+        for m in re.finditer(r"\bpub\s+(\w+)\s*:\s*(?:&\s*(?:'\w+\s+)?(?:mut\s+)?)?\[?\s*(?:(?:Arc|Box|Option|Ghost|Tracked|Vec)\s*<\s*)*\[?\s*(\w+)", ln):
             ftypes.setdefault(m.group(1), set()).add(m.group(2))
     calls = {f: set() for f in asm.fns}
     for f, lines in bodies.items():
@@ -158,7 +158,7 @@ def caller_props(asm):
                 hit = False
                 if owner and re.search(r"\b%s\s*::\s*%s\s*\(" % (re.escape(owner), re.escape(s)), text):
                     hit = True
-                elif owner and any(owner in ftypes.get(m.group(1), ()) for m in re.finditer(r"\.\s*(\w+)\s*\.\s*%s\s*\(" % re.escape(s), text)):
+                elif owner and any(owner in ftypes.get(m.group(1), ()) for m in re.finditer(r"\.\s*(\w+)\s*(?:\[[^\]]*\]\s*)?\.\s*%s\s*\(" % re.escape(s), text)):
                     hit = True
                 elif owner and owner == fowner and re.search(r"\b(self|vx_self|Self)\s*(\.|::)\s*%s\s*\(" % re.escape(s), text):
                     hit = True
